@@ -40,7 +40,7 @@ pub struct Case {
 
 fn op_strategy() -> impl Strategy<Value = Op> {
     let k = select(vec!["a", "b"]).prop_map(|s| s.to_string());
-    let v = select(vec!["x", "7", "", "two words", "-3"]).prop_map(|s| s.to_string());
+    let v = select(vec!["x", "7", "", "two words", "-3", "2147483646", "-2147483647"]).prop_map(|s| s.to_string());
     let ver = prop_oneof![
         3 => select(vec![-1, 0, 1, 2, -2, -3, 2147483646, 2147483647, i32::MIN]).prop_map(V::Abs),
         5 => select(vec![0, -1, 1, 2, -2, 100]).prop_map(V::Rel),
@@ -163,6 +163,17 @@ pub fn run_seq(ctx: &Ctx, case: &Case) -> Outcome {
                 node.pump();
                 mutated_ok = !is_refusal(&r);
                 let numeric = l != Life::Live || val_before.parse::<i32>().is_ok();
+                // an increment that would leave the integer range cannot add exactly its amount: acknowledging it loses it
+                let cur: i32 = if l == Life::Live { val_before.parse::<i32>().unwrap_or(0) } else { 0 };
+                let leaves_range = numeric && cur.checked_add(*n).is_none();
+                if leaves_range {
+                    if mutated_ok {
+                        let (val_after, _) = get_safe(&mut s, &node, &key);
+                        fail = Some(("C02|increment-acknowledged-but-not-added".to_string(), format!("step {}: increment {} {} on {:?} was acknowledged, the key holds {:?} now", i, k, n, val_before, val_after)));
+                        break;
+                    }
+                    continue;
+                }
                 if numeric && !mutated_ok && ver_before < i32::MAX - 1 {
                     fail = Some((format!("C02|increment-refused|{}", lname), format!("step {}: increment {} refused on {:?}: {}", i, k, val_before, resp_text(&r))));
                     break;
